@@ -236,7 +236,14 @@ def compute_reference(req):
 
 
 class Sim:
-    def __init__(self, source_spec, args, deep_fork_check=True, ref_mode="inproc"):
+    def __init__(self, source_spec, args, deep_fork_check=True, ref_mode="inproc", ids="real"):
+        if ids == "recycled":
+            # deterministic, adversarial id() for the library's objects (this
+            # process is a child forked for this one history)
+            from . import idseam
+
+            idseam.install()
+        self.ids = ids
         FS.install()
         FS.reset()
         INJECTOR.reset()
@@ -679,7 +686,7 @@ class Sim:
 def run_schedule(schedule, deep_fork_check=True):
     """Execute an explicit schedule. Returns (sim, violation_or_None)."""
     sim = Sim(schedule["source"], schedule["args"], deep_fork_check=deep_fork_check,
-              ref_mode=schedule.get("ref", "inproc"))
+              ref_mode=schedule.get("ref", "inproc"), ids=schedule.get("ids", "real"))
     try:
         for st in schedule["steps"]:
             sim.step(st)
